@@ -1425,6 +1425,12 @@ class Interp:
             return f(*a)
         except Internal:
             raise
+        except TypeError as x:
+            # a native operator applied to a symbolic value / symbolic container that CPython does not know is a limit of the engine's
+            # models, not a TypeError of the program under verification
+            if any(isinstance(v, (Sym, self.models.SymContainer)) or self.models.has_sym(v, 1) for v in a):
+                raise Unsupported(f"native {getattr(f, '__name__', f)} on symbolic operand: {x}")
+            raise PyExc(x)
         except Exception as x:
             raise PyExc(x)
 
